@@ -412,8 +412,16 @@ fn check_file(cx: &mut Cx, tag: &str, bytes: &[u8], sch: &Sch, want: &Table, wan
     lap(&mut tm, 2);
     let mut par_rs: Option<RecordSet> = None;
     for &tc in classes {
-        let res = in_pool(tc, || wow_cdbc::parse_records_parallel(bytes, parser.header(), parser.schema(), Arc::clone(&sb)));
+        // a panic on a rayon worker is re-raised here without the hook's thread-local record
+        let res = guarded(|| in_pool(tc, || wow_cdbc::parse_records_parallel(bytes, parser.header(), parser.schema(), Arc::clone(&sb))));
         cx.r.count("parallel_runs", 1);
+        let res = match res {
+            Ok(r) => r,
+            Err((file, line, msg)) => {
+                cx.viol(format!("{tag}: parse_records_parallel panics"), format!("{ctx}: threads={}: {file}:{line}: {msg}", thread_class_name(tc)));
+                continue;
+            }
+        };
         match res {
             Err(e) => cx.viol(
                 format!("{tag}: parse_records_parallel returns Err on a well-formed table"),
@@ -911,7 +919,29 @@ fn repro() {
     println!("   create_sorted_key_map() = {:?}", rs.create_sorted_key_map().is_ok());
     println!("   get_record_by_key_binary_search(5) = {:?}", rs.get_record_by_key_binary_search(5).map(|r| r.values().to_vec()));
 
-    println!("== F3: lazy / parallel / mmap string_block ignore the WDB2 header length");
+    println!("== F4: DbcWriter loses the text of strings that sit in a String array field");
+    let mut sch = Schema::new("T");
+    sch.add_field(SchemaField::new_array("names", FieldType::String, 1));
+    let mut f = b"WDBC".to_vec();
+    for x in [1u32, 1, 4, 3] {
+        f.extend_from_slice(&x.to_le_bytes());
+    }
+    f.extend_from_slice(&[1, 0, 0, 0]); // names[0] -> offset 1
+    f.extend_from_slice(b"\0a\0");
+    let rs = DbcParser::parse_bytes(&f).unwrap().with_schema(sch.clone()).unwrap().parse_records().unwrap();
+    println!("   source : names[0] = {:?}", rs.get_string(StringRef::new(1)));
+    let mut cur = Cursor::new(Vec::new());
+    DbcWriter::new(&mut cur).with_schema(sch.clone()).write_records(&rs).unwrap();
+    let out = cur.into_inner();
+    println!("   written: record bytes {:?}, string block {:?}", &out[20..24], &out[24..]);
+    let back = DbcParser::parse_bytes(&out).unwrap().with_schema(sch).unwrap().parse_records().unwrap();
+    if let Some(Value::Array(v)) = back.get_record(0).unwrap().get_value(0) {
+        if let Value::StringRef(r) = &v[0] {
+            println!("   parsed back: names[0] = {:?}", back.get_string(*r));
+        }
+    }
+
+    println!("== F3/F5: lazy / parallel / mmap string_block ignore the WDB2 header length; basic header length off by 4");
     let sch = Sch { fields: vec![Kind { ty: Ty::U32, arr: None }, Kind { ty: Ty::Str, arr: None }], key: None };
     let truth = vec![vec![Cell::U32(0x11), Cell::Str("a".into())], vec![Cell::U32(0x22), Cell::Str("b".into())]];
     let em = dbcref::emit(&sch.fields, &truth, Layout::Pooled, HeaderKind::Wdb2Basic);
